@@ -325,7 +325,11 @@ class Samples:
             self._hdf5_dataset.flush()
 
         elif self.filetype == "NPY":
-            self._numpy_appendable_array.append(_numpy.ascontiguousarray(array.T))
+            # Always float64, as for HDF5: the NPY file keeps the dtype of its first block
+            # and refuses blocks of another dtype (e.g. a column of integers)
+            self._numpy_appendable_array.append(
+                _numpy.ascontiguousarray(array.T, dtype=_numpy.float64)
+            )
 
             self.write_attribute(
                 "write_index", self.read_attribute("write_index") + array.shape[1]
